@@ -234,7 +234,7 @@ contract(CF, "CompressionFormat.setupSlice",
                  "isnone(self.coords_handle) == (base < 0 or base >= val(self.shape))",
                  "implies(not isnone(self.coords_handle), val(self.coords_handle) == base)"])},
          ensures={"C20": ["unchanged_list(self.coords)", "unchanged_list(self.payloads)", "self.num_ret_so_far == 0",
-                          "iff(isnone(self.num_to_ret), isnone(max_num))", "implies(not isnone(max_num), val(self.num_to_ret) == val(max_num))", "self.base == base"]},
+                          "iff(isnone(self.num_to_ret), isnone(max_num))", "implies(not isnone(max_num), val(self.num_to_ret) == val(max_num))"]},
          note="positions the scan of a C or U fiber at the slice base")
 
 # ------------------------------------------------------------------ encoding a leaf fiber
@@ -275,10 +275,10 @@ contract(CL, "CoordinateList.encodeFiber", mutant_skip=["output["],
              "forall(lambda k: self.payloads[old(len(self.payloads)) + k] == final(_it0).seq[k][1].value, 0, result)",
              "same_elems(self.coords, old(seq(self.coords)), 0, old(len(self.coords)))",
              "same_elems(self.payloads, old(seq(self.payloads)), 0, old(len(self.payloads)))",
-             "self.is_leaf", "self.depth == depth", "self.fiber_occupancy == result"]},
+             ]},
          loops={0: dict(types={"ind": "int", "val": "Payload|Fiber", "fiber_occupancy": "int", "prev_nz": "int"},
                         modifies=["list:self.coords", "list:self.payloads", "any:OutList.g_state"],
-                        invariant=["fiber_occupancy == _i0", "self.is_leaf", "depth == len(ranks) - 1",
+                        invariant=["fiber_occupancy == _i0", "depth == len(ranks) - 1",
                                    "len(self.coords) == old(len(self.coords)) + _i0", "len(self.payloads) == old(len(self.payloads)) + _i0",
                                    "forall(lambda k: self.coords[old(len(self.coords)) + k] == _it0.seq[k][0], 0, _i0)",
                                    "forall(lambda k: self.payloads[old(len(self.payloads)) + k] == _it0.seq[k][1].value, 0, _i0)",
